@@ -497,7 +497,7 @@ mod n {
 
     #[test]
     fn n_c07_defaults() {
-        drive("C07.defaults", "EnergyProps::from + KData + QSolJulData: window construction with glazing {ok, nil, dangling} x frame {ok, dangling} x user shading factor {none, 0.12}; window with / without construction: defaults 0.77 / g_gl;wi fallback / 5.7 W/m2K", |c| {
+        drive("C07.defaults", "EnergyProps::from + KData + QSolJulData: window construction with glazing {ok, nil, dangling} x frame {ok, dangling} x user shading factor {none, 0.12}; window with / without construction; a second, complete construction listed before / after it / absent: defaults 0.77 / g_gl;wi fallback / 5.7 W/m2K", |c| {
             let gl = c.pick(3);
             let fr = c.pick(2);
             let user = c.of(&[None, Some(0.12f32)]);
@@ -511,10 +511,24 @@ mod n {
             let mut wc = wincons(0xD0, [uid(0xF0), Uuid::nil(), uid(0xFE)][gl], [uid(0xF1), uid(0xFD)][fr]);
             wc.g_glshwi = user;
             m.cons.wincons = vec![wc];
+            // another, complete construction with a different glazing listed before / after it: every construction gets
+            // its own values, whatever the list holds around it
+            let neighbour = c.pick(3);
+            if neighbour > 0 {
+                let mut g2 = glass(0xF2);
+                g2.g_gln = 0.3;
+                m.cons.glasses.push(g2);
+                let n = wincons(0xD5, uid(0xF2), uid(0xF1));
+                if neighbour == 1 {
+                    m.cons.wincons.insert(0, n);
+                } else {
+                    m.cons.wincons.push(n);
+                }
+            }
             m.walls.push(wall(1, BoundaryType::EXTERIOR, uid(0xA0), None, uid(0xC0), 180.0, 0.0, rect(4.0, 5.0), None));
             m.walls.push(wall(2, BoundaryType::EXTERIOR, uid(0xA0), None, uid(0xC0), 90.0, 0.0, rect(4.0, 3.0), None));
             m.windows.push(window(0x11, uid(2), if has_cons { uid(0xD0) } else { uid(0xDE) }, 2.0, 1.5, None, 0.0));
-            c.note(format!("glass#{} frame#{} user {:?} has_cons {}", gl, fr, user, has_cons));
+            c.note(format!("glass#{} frame#{} user {:?} has_cons {} neighbour {}", gl, fr, user, has_cons, ["none", "listed before", "listed after"][neighbour]));
             let ind = m.energy_indicators();
             let p = &ind.props;
             let wcp = &p.wincons[&uid(0xD0)];
@@ -524,6 +538,10 @@ mod n {
             c.check("C07.defaults.g_glwi", (wcp.g_glwi - g_wi).abs() < 1e-6, || format!("g_gl;wi {} want {}", wcp.g_glwi, g_wi));
             let g_sh = user.unwrap_or(g_wi);
             c.check("C07.defaults.g_glshwi", (wcp.g_glshwi - g_sh).abs() < 1e-6, || format!("g_gl;sh;wi {} want {}", wcp.g_glshwi, g_sh));
+            if neighbour > 0 {
+                let np = &p.wincons[&uid(0xD5)];
+                c.check("C07.defaults.neighbour", (np.g_glwi - 0.27).abs() < 1e-6 && (np.g_glshwi - 0.27).abs() < 1e-6 && np.u_value.is_some(), || format!("the complete construction next to it: g {} / {} U {:?}, want 0.27 / 0.27 / a value", np.g_glwi, np.g_glshwi, np.u_value));
+            }
             // downstream: K uses 5.7 W/m2K when the window has no U; q_sol;jul uses 0.77 / 0.20 without construction
             let win_u = if has_cons && resolves { round2(1.1 * (0.25 * 2.2 + 0.75 * 1.4)) } else { 5.7 };
             c.check("C07.defaults.k_uses_5_7", approx64(ind.K_data.windows.au, 3.0 * win_u, 1e-4, 1e-4), || format!("window A.U {} want {}", ind.K_data.windows.au, 3.0 * win_u));
